@@ -17,6 +17,7 @@ mod prng;
 mod progs;
 mod run;
 mod vm;
+pub mod watch;
 
 use std::fs::File;
 use std::io::{BufWriter, Write};
@@ -92,6 +93,7 @@ impl Sink {
 fn main() {
     std::panic::set_hook(Box::new(|_| {}));
     let o = parse_opts();
+    watch::start(&o.out, &o.prop, o.shard as u32);
     match o.prop.as_str() {
         "C02" => vm::run(&o),
         "C03" => run::run(&o),
